@@ -495,8 +495,12 @@ def c_program_shape(sim, cfgs, inits):
     if len(re.findall(r'\binsert\(', body)) != sum(c.nw for c in cfgs) or \
             len(re.findall(r'\blookup\(', body)) != sum(c.nr * ((c.dw + 63) // 64) for c in cfgs):
         raise ShapeError('unmodelled insert()/lookup() calls in sim_run_step')
-    if body.rfind('lookup(') > body.find('insert('):
+    if 'insert(' in body and body.rfind('lookup(') > body.find('insert('):
         raise ShapeError('a lookup() is emitted after an insert(): read-after-write within the cycle')
+    upd = re.search(r'^\w+\[\d+\] = regtmp\d+\[\d+\]', body, flags=re.M)
+    if upd and 'insert(' in body and body.rfind('insert(') > upd.start():
+        raise ShapeError('an insert() is emitted after the registers are updated: a port fed by a register would '
+                         'see its next-cycle value')
 
 
 # ------------------------------------------------------------------ Verilog memory fragment
@@ -809,31 +813,49 @@ def data_value(rng, dw):
 
 
 def gen_history(rng, cfg, ncyc, pool, foreign=None):
-    """foreign[t] = addresses that OTHER memories of the design have written in cycles < t: this memory then
-    deliberately reads them (it must see its own word, not theirs) and writes them with different data"""
+    """EFFECTIVE history (what the ports present to the memory each cycle).
+    foreign[t] = addresses that OTHER memories of the design have written in cycles < t: this memory then
+    deliberately reads them (it must see its own word, not theirs) and writes them with different data.
+    Operand sources (cfg.wk / cfg.rk) constrain it: a register-fed operand is 0 in cycle 0, a Const address is fixed,
+    a Const-0 enable never writes, a Const-1 / implicit enable always does (at most one such port per memory)."""
     hist = []
     written = []
+    always = [i for i in range(cfg.nw) if cfg.wk[i][2] in ('c1', 'implicit')]
+    assert len(always) <= 1
     for t in range(ncyc):
-        ws = []
+        ws = [None] * cfg.nw
         used = set()
-        for i in range(cfg.nw):
+        for i in always + [i for i in range(cfg.nw) if i not in always]:
+            ak, dk, ek, ac = cfg.wk[i]
             if cfg.tagged:
                 a = (rng.getrandbits(cfg.aw - 2) if rng.random() < 0.3 else (rng.choice(pool) >> 2)) << 2 | i
+            elif ak == 'const':
+                a = ac
+            elif ak == 'reg' and t == 0:
+                a = 0
             elif foreign and foreign[t] and rng.random() < 0.35:
                 a = rng.choice(foreign[t])
             else:
                 a = rng.choice(pool) if rng.random() < 0.85 else rng.getrandbits(cfg.aw)
-            e = 1 if rng.random() < 0.7 else 0
-            if e and a in used:
-                e = 0               # a disabled port colliding with an enabled one
+            d = 0 if (dk == 'reg' and t == 0) else data_value(rng, cfg.dw)
+            if ek == 'c0' or (ek == 'reg' and t == 0):
+                e = 0
+            elif ek in ('c1', 'implicit'):
+                e = 1
+            else:
+                e = 1 if rng.random() < 0.7 else 0
+                if e and a in used:
+                    e = 0               # a disabled port colliding with an enabled one
             if e:
                 used.add(a)
                 written.append(a)
-            ws.append((a, data_value(rng, cfg.dw), e))
+            ws[i] = (a, d, e)
         rs = []
         for j in range(cfg.nr):
             r = rng.random()
-            if foreign and foreign[t] and rng.random() < 0.45:
+            if cfg.rk[j] == 'reg' and t == 0:
+                rs.append(0)
+            elif foreign and foreign[t] and rng.random() < 0.45:
                 rs.append(rng.choice(foreign[t]))            # written earlier in ANOTHER memory
             elif r < 0.35 and used:
                 rs.append(rng.choice(sorted(used)))          # read-during-write
@@ -845,6 +867,22 @@ def gen_history(rng, cfg, ncyc, pool, foreign=None):
                 rs.append(rng.getrandbits(cfg.aw))           # probably uninitialised
         hist.append((ws, rs))
     return hist
+
+
+def draw_sources(rng, cfg, pool):
+    """operand sources of every port: Input / Register used directly / Const"""
+    wk, have_always = [], False
+    for i in range(cfg.nw):
+        ak = rng.choice(['in', 'in', 'in', 'reg', 'reg', 'const'])
+        dk = rng.choice(['in', 'in', 'reg'])
+        ek = rng.choice(['in', 'in', 'in', 'reg', 'reg', 'c0', 'c1', 'implicit'])
+        if ek in ('c1', 'implicit'):
+            if have_always:
+                ek = 'c0'
+            have_always = True
+        wk.append((ak, dk, ek, rng.choice(pool) if ak == 'const' else 0))
+    cfg.wk = wk
+    cfg.rk = [rng.choice(['in', 'in', 'reg']) for _ in range(cfg.nr)]
 
 
 def written_before(hists, ncyc):
@@ -910,7 +948,15 @@ def random_part(ctx, chk, ndesigns, ncyc_range, compiled_every, post_every, veri
                 tagged = (3 <= aw <= 16) and rng.random() < 0.3
                 cfgs.append(MemCfg(k, aw, dw, nw, nr, tagged))
             pools = [addr_pool(rng, c.aw) for c in cfgs]
-        dflt = 0 if rng.random() < 0.7 else 1
+        for c, pool in zip(cfgs, pools):
+            if not c.tagged and rng.random() < (0.5 if not cross else 0.35):
+                draw_sources(rng, c, pool)
+            for w in c.wk:
+                ctx.count('write_port_sources(addr/data/enable)', '%s/%s/%s' % w[:3])
+            for r in c.rk:
+                ctx.count('read_port_address_source', r)
+        # registers start at default_value, whose meaning differs once a register is split into bits: keep it 0 then
+        dflt = 0 if (rng.random() < 0.7 or any(c.has_regs() for c in cfgs)) else 1
         ncyc = rng.randint(*ncyc_range)
         inits = []
         for c, pool in zip(cfgs, pools):
@@ -1005,7 +1051,7 @@ def random_part(ctx, chk, ndesigns, ncyc_range, compiled_every, post_every, veri
                         ctx.model_mismatch('the regex reader of this check and py/verilog_reader.py extract different '
                                            'memory fragments from the exported Verilog', {'design': di})
                     alias, frag = via
-                res['verilog'] = verilog_eval(alias, frag, cfgs, inits, steps)
+                res['verilog'] = verilog_eval(alias, frag, cfgs, inits, verilog_envs(cfgs, case['hists'], steps))
             except VerilogShapeError as e:
                 ctx.spec_violation('verilog:memory-block-shape', 'exported Verilog memory fragment: %s' % e,
                                    {'seed': ctx.seed, 'design': di, 'memories': [c.desc() for c in cfgs]})
@@ -1750,7 +1796,8 @@ def replay(real_ctx, data):
     _WORKDIR[:] = [real_ctx.workdir]
     chk = Checker(ctx)
     m = rep['memory']
-    cfg = MemCfg(0, m['addrwidth'], m['bitwidth'], m['write_ports'], m['read_ports'], m.get('tagged_low_bits', False))
+    cfg = MemCfg(0, m['addrwidth'], m['bitwidth'], m['write_ports'], m['read_ports'], m.get('tagged_low_bits', False),
+                 wk=m.get('write_port_sources(addr,data,enable,const addr)'), rk=m.get('read_port_sources'))
     hist = [([tuple(w) for w in ws], list(rs)) for ws, rs in rep['history']]
     init = [tuple(p) for p in rep.get('memory_value_map', [])]
     dflt = rep.get('default_value', 0)
